@@ -996,8 +996,8 @@ static handler_t mod_extforward_Forwarded (request_st * const r, plugin_data * c
                 http_header_env_set(r,
                                     CONST_STR_LEN("REMOTE_USER"), s+v, vlen-v);
                 euser = http_header_env_get(r, CONST_STR_LEN("REMOTE_USER"));
-                force_assert(NULL != euser);
-                if (!buffer_backslash_unescape(euser)) {
+                /*(euser is NULL if value is blank: remote_user="")*/
+                if (NULL != euser && !buffer_backslash_unescape(euser)) {
                     return mod_extforward_bad_request(r, __LINE__,
                       "invalid remote_user= value in Forwarded header");
                 }
